@@ -29,6 +29,8 @@ type Expect struct {
 
 // Case is a rendered single-file program with the model's verdict.
 type Case struct {
+	// Other, when set, is the text of other.thrift, which Text includes
+	Other      string   `json:"other,omitempty"`
 	Text       string   `json:"text"`
 	NonStrict  bool     `json:"non_strict"`
 	Violations []string `json:"violations"` // kinds of well-formedness violations present ("" = none)
@@ -339,7 +341,40 @@ func genCase(t *rapid.T) Case {
 		c.Expects = append(c.Expects, Expect{"const:L2", 7})
 	}
 
-	c.Text = b.sb.String()
+	// ---- a number that arrives through a reference: constants of a second file, typed by a
+	// typedef that has the same NAME as a typedef of this file but another width; also through
+	// a typedef of this file, a list, and a default
+	if rapid.IntRange(0, 2).Draw(t, "crossfile") == 0 {
+		wide := rapid.SampledFrom([]string{"i16", "i32", "i64"}).Draw(t, "xwide")
+		narrow := rapid.SampledFrom([]string{"i8", "i16", "i32", "i64"}).Draw(t, "xnarrow")
+		v, spell := genInt(t, "xv")
+		if !inRange(v, intBits(wide)) {
+			v, spell = 100, "100"
+		}
+		c.Other = fmt.Sprintf("typedef %s Num\nconst Num BIG = %s\nconst list<Num> BIGS = [1, %s]\n", wide, spell, spell)
+		head := "include \"./other.thrift\"\n"
+		b.sb.WriteString("typedef " + narrow + " Num\n")
+		form := rapid.IntRange(0, 3).Draw(t, "xform")
+		switch form {
+		case 0:
+			b.sb.WriteString("const Num XPORT = other.BIG\n")
+			c.Expects = append(c.Expects, Expect{"const:XPORT", v})
+		case 1:
+			b.sb.WriteString("const " + narrow + " XPORT = other.BIG\n")
+			c.Expects = append(c.Expects, Expect{"const:XPORT", v})
+		case 2:
+			b.sb.WriteString("const list<Num> XPORTS = other.BIGS\n")
+		case 3:
+			b.sb.WriteString("struct XD { 1: optional Num p = other.BIG }\n")
+		}
+		if !inRange(v, intBits(narrow)) {
+			b.violate("constant-out-of-range-via-reference-" + narrow)
+		}
+		c.Boundary = c.Boundary || nearBoundary(v, intBits(narrow))
+		c.Text = head
+	}
+
+	c.Text += b.sb.String()
 	for k := range b.viol {
 		c.Violations = append(c.Violations, k)
 	}
@@ -358,6 +393,9 @@ func constInt(m *compile.Module, v compile.ConstantValue, t compile.TypeSpec) (i
 
 func checkCase(c Case) error {
 	fs := cdump.MemFS{cdump.Root + "c09.thrift": []byte(c.Text)}
+	if c.Other != "" {
+		fs[cdump.Root+"other.thrift"] = []byte(c.Other)
+	}
 	opts := []compile.Option{compile.Filesystem(fs)}
 	if c.NonStrict {
 		opts = append(opts, compile.NonStrict())
@@ -437,7 +475,7 @@ func checkCase(c Case) error {
 }
 
 func run(t ev.TB, unit string, c Case) {
-	d := ev.Digest([]byte(c.Text), []byte(fmt.Sprint(c.NonStrict)))
+	d := ev.Digest([]byte(c.Text), []byte(c.Other), []byte(fmt.Sprint(c.NonStrict)))
 	nontriv := c.Boundary || len(c.Violations) > 0
 	cls := []string{fmt.Sprintf("nonstrict:%v", c.NonStrict), fmt.Sprintf("clearly-valid:%v", c.ClearlyValid)}
 	for _, v := range c.Violations {
